@@ -376,6 +376,20 @@ where
         Ok(items)
     }
 
+    /// Appends `value` at the next address whether or not an equal value is already present; the first of
+    /// several equal values stays the one later additions are interned to.
+    pub(crate) fn push_keeping_address(&mut self, value: crate::data::SimpleData<T>) -> usize {
+        let mut h = DefaultHasher::new();
+        value.hash(&mut h);
+        value.get_data_type().hash(&mut h);
+        let hv = h.finish();
+
+        let addr = self.data.len();
+        self.data.push(value);
+        self.cache.entry(hv).or_insert(addr);
+        addr
+    }
+
     pub(crate) fn cache_add(&mut self, value: crate::data::SimpleData<T>) -> Result<usize, DataError> {
         let mut h = DefaultHasher::new();
         value.hash(&mut h);
